@@ -254,7 +254,7 @@ Section Pass.
     exists s' l e Q' R',
       ppass (mkx mx s) 0 dl = (mkx mx s', PLeft l, e) /\ frame s s' /\
       INV mx specs s' (c_d s') (fold_left pev15 e tr) None None Q' R' /\
-      (0 < l -> R' = [] /\ no_due s' (c_d s') /\ GG mx s' Q' []).
+      (0 < l -> R' = [] /\ no_due s' (c_d s') /\ GG mx s' Q' []) /\ l = sat_sub dl (c_clock s).
   Proof.
     intro H.
     destruct (inv_grow mx specs s (c_d s) tr None None Q R H) as (R0 & H0 & _ & HG0).
@@ -269,7 +269,8 @@ Section Pass.
       rewrite (ppass_mk mx s dl _ _ _ _ _ Hc).
       exists (s_d (grow mx s) (c_d (grow mx s))), 0, [], Q, R0. split; [reflexivity|].
       split; [eapply frame_trans; [exact Hfr0 | split; reflexivity]|].
-      split; [|lia]. cbn [fold_left c_d s_d]. rewrite Hd. eapply inv_same; [..|exact H0]; reflexivity.
+      split; [cbn [fold_left c_d s_d]; rewrite Hd; eapply inv_same; [..|exact H0]; reflexivity|].
+      split; [lia|]. rewrite <- (frame_clock _ _ Hfr0). symmetry. exact Hcut.
     - destruct (pass_loop dl (pass_fuel_p (mkx mx (grow mx s))) (grow mx s) (c_d s) tr Q R0 [] [] H0 HG0 Hlive (mu_lt_fuel _ _ _ _ _ H0))
         as (s' & d' & e & res' & Q' & Heq & H1 & Hnd1 & HG1 & Hfr1).
       rewrite <- Hd in Heq at 1. cbn [app] in Heq.
@@ -277,6 +278,7 @@ Section Pass.
       exists (s_d s' d'), (sat_sub dl (c_clock (grow mx s))), e, Q', []. split; [reflexivity|].
       split; [eapply frame_trans; [exact Hfr0|]; eapply frame_trans; [exact Hfr1 | split; reflexivity]|].
       split; [cbn [c_d s_d]; eapply inv_same; [..|exact H1]; reflexivity|].
-      intros _. split; [reflexivity|]. split; [exact Hnd1 | exact HG1].
+      split; [intros _; split; [reflexivity|]; split; [exact Hnd1 | exact HG1]|].
+      rewrite (frame_clock _ _ Hfr0). reflexivity.
   Qed.
 End Pass.
